@@ -1,9 +1,9 @@
 N = {"quick": 300, "thorough": 10000}
 EXHAUSTIVE = {"quick": False, "thorough": True}
-RULE = ("random engine states built through the real Engine::process (2-3 exchanges with links mostly healthy, some closed/missing; 1-3 instruments per exchange in random index order over "
+RULE = ("random engine states built through the real Engine::process (2-3 exchanges with links mostly healthy, some closed/missing; 1-3 instruments per exchange (grouped by exchange, so that instrument label = InstrumentIndex) over "
         "underlyings {a0,a1,a2}x{a3,a4}; per instrument 0-4 orders of classes in-flight / open / partially filled / acknowledged / cancel-in-flight (with and without exchange id), "
         "6% recorded under another exchange; long / short / no position; price known 75%), then 1-4(6) Command::CancelOrders / Command::ClosePositions with filters "
-        "none / ex:subset / ins:subset / und:subset (incl. unknown exchanges / instruments / underlyings and duplicate entries), 60% issued twice in a row, 35% followed by a cancel response / "
+        "none / ex:subset / ins:subset / und:subset (biased to underlyings that exist; incl. unknown exchanges / instruments / underlyings and duplicate entries), 60% issued twice in a row, 35% followed by a cancel response / "
         "snapshot / price / fill / new open, and a final unfiltered close_positions / cancel_orders that exposes every position, price and order. thorough additionally enumerates, over 3 layouts "
         "of 2 exchanges x 2 instruments, (5 order classes x 4 position/price classes)^2 states (full product for the first layout, a quarter slice for the others) x 14 filters "
         "(none, every subset of exchanges / instruments / underlyings incl. ones naming nothing), each with cancel_orders twice, close_positions twice, then unfiltered observation "
